@@ -28,7 +28,7 @@ TITLE = 'render errors: type, expression, position'
 LEVEL = 'exploration'
 SHARDS = {'quick': 16, 'thorough': 16}
 FLOOR = {'quick': 400, 'thorough': 4000}
-REQUIRED_MONITORS = {'M-exc': 2500, 'records-compared': 2000, 'chain-records-compared': 400, 'non-exception-classes': 100, 'deferred-messages-rechecked': 2000, 'entity-written-compared': 400}
+REQUIRED_MONITORS = {'M-exc': 2500, 'records-compared': 2000, 'chain-records-compared': 400, 'non-exception-classes': 100, 'deferred-messages-rechecked': 2000, 'entity-written-compared': 400, 'attribute-failures-compared': 300}
 RULE = ('(A) a case = (program, binding table, failing occurrence among those the model reaches, exception class from '
         '{KeyError, ValueError, ZeroDivisionError, CustomError(2 args + attribute), StrOverride, UnicodeDecodeError, '
         'RecursionError, KeyboardInterrupt, SystemExit, GeneratorExit}); (B) a case = (layout of the 3-file chain, failing '
@@ -456,6 +456,61 @@ def layer_entity_written(ctx, n):
                           % (recs, want, alt), replay)
 
 
+def layer_attribute_failures(ctx, n):
+    """The failure is raised by the attribute access itself (obj.name on records offering attributes, items, both or
+    neither): the exception that leaves render() is the one plain attribute access raises - the object's own
+    AttributeError (subclass, arguments) also when the item fallback was tried and failed with KeyError - and the
+    message names the expression."""
+    from chameleon import PageTemplate
+    from chameleon.exc import RenderError
+    from checks.c04 import Guarded, PathAttrError, Rec, Row, ref_attr
+    rng = ctx.rng
+
+    class ItemBoom:
+        def __getitem__(self, k):
+            raise ZeroDivisionError('item lookup failed')
+
+    OBJS = {'guarded': Guarded(a=1), 'row': Row(a=1), 'rec': Rec(a=1), 'dct': {'a': 1}, 'itemboom': ItemBoom(), 'lst': [1], 'num': 7}
+    for i in range(n):
+        name = rng.choice(sorted(OBJS))
+        attr = rng.choice(['nosuch', 'missing_1', 'b'])
+        expr = rng.choice(['%s.%s', '%s.%s.deeper', 'str(%s.%s)', '(%s.%s or 1)']) % (name, attr)
+        lead = rng.choice(['', '\n', 'é\n  ', '<i>${g(1)}</i>'])
+        tpl = rng.choice(['<p tal:content="%s">x</p>', '<p>${%s}</p>', '<p tal:define="w %s">x</p>', '<p tal:attributes="a %s">x</p>',
+                          '<p tal:condition="%s">x</p>'])
+        src = lead + '<root>' + tpl % expr + '</root>'
+        try:
+            ref_attr(OBJS[name], attr)
+            continue
+        except Exception as ex:
+            planted = ex
+        off = src.index(expr)
+        want = [(expr, '<string>') + line_col(src, off)]
+        what = 'template %r, %s.%s fails with %r' % (src, name, attr, planted)
+        replay = {'kind': 'attrfail', 'src': src}
+        ctx.mon('attribute-failures-compared')
+        ctx.case(key=('attrfail', name, expr.replace(attr, 'A'), tpl[:12], bool(lead)), nontrivial=True)
+        try:
+            out = PageTemplate(src)(g=lambda i: 'g', **OBJS)
+            ctx.violation('failure-swallowed', what + ': render returned %r' % out[:80], replay)
+            continue
+        except BaseException as e:      # noqa
+            exc = e
+        problems = []
+        if not isinstance(exc, type(planted)) or not isinstance(exc, RenderError):
+            problems.append('class %r, expected an instance of %s and of RenderError' % (type(exc).__mro__[:3], type(planted).__name__))
+        if exc.args != planted.args:
+            problems.append('args %r != %r' % (exc.args, planted.args))
+        if isinstance(planted, PathAttrError) and getattr(exc, 'code', None) != 42:
+            problems.append('attribute of the exception lost')
+        if problems:
+            finish(ctx, problems, 'exception-class-or-args-not-preserved', what, replay)
+            continue
+        recs = [(a, b[-40:], int(c), int(d)) for a, b, c, d in REC.findall(str(exc))]
+        if recs != want:
+            finish(ctx, ['records %r, expected %r' % (recs, want)], 'innermost-record-differs', what, replay)
+
+
 def run(ctx):
     monitors.install(ctx, tokalg=False)
     layer_string_templates(ctx, 60 if ctx.quick else 1000)
@@ -464,6 +519,7 @@ def run(ctx):
     layer_recursive_render(ctx, 20 if ctx.quick else 300)
     layer_handled_then_later(ctx, 20 if ctx.quick else 300)
     layer_entity_written(ctx, 40 if ctx.quick else 600)
+    layer_attribute_failures(ctx, 40 if ctx.quick else 600)
 
 
 def replay(data):
